@@ -41,21 +41,21 @@ def families(ctx):
         # 1-2 fields: everything (all four kinds, one-member groups, q with requirements), both variants
         fam("n1", 1, N=1, kinds=BSI + ["m"], maxmand=1, reqsets=0, reqs=0, owners=1, maxxor=2, mingroup=1, maxgroup=1)
         fam("n2", 2, N=2, kinds=BSI + ["m"], maxmand=1, reqsets=2, reqs=2, owners=2, maxxor=2, mingroup=1, maxgroup=2)
-        # 3 fields: requires (<=2 sets of <=2) x second owner x <=1 group, and requires x <=2 groups
-        fam("n3", 9, both=False, N=3, kinds=BSI, reqsets=2, reqs=2, owners=2, maxxor=1, mingroup=2, maxgroup=3)
-        fam("n3x", 9, both=False, N=3, kinds=BSI, reqsets=2, reqs=2, owners=1, maxxor=2, mingroup=2, maxgroup=3)
+        # 3 fields: full requires space x <=1 group; one requirement set + second owner x <=1 group;
+        # one requirement x <=2 groups
+        fam("n3r", 9, both=False, N=3, kinds=BSI, reqsets=2, reqs=2, owners=1, maxxor=1, mingroup=2, maxgroup=3)
+        fam("n3o", 9, both=False, N=3, kinds=BSI, reqsets=1, reqs=2, owners=2, maxxor=1, mingroup=2, maxgroup=3)
+        fam("n3x", 9, both=False, N=3, kinds=BSI, reqsets=1, reqs=1, owners=1, maxxor=2, mingroup=2, maxgroup=3)
         # 3 fields with a mandatory one and one-member groups
         fam("n3m", 3, N=3, kinds=["b", "s", "m"], maxmand=1, reqsets=1, reqs=2, owners=1, maxxor=1, mingroup=1, maxgroup=3)
-        # 4 fields: full requires space; one requirement set x one group; one requirement x two groups;
-        # two groups of any size
+        # 4 fields: full requires space; one requirement set x one group; two groups of any size
         fam("n4r", 4, both=False, N=4, kinds=BS, reqsets=2, reqs=2, owners=1, maxxor=0, mingroup=2, maxgroup=2)
         fam("n4rx", 8, both=False, N=4, kinds=BS, reqsets=1, reqs=2, owners=1, maxxor=1, mingroup=2, maxgroup=4)
-        fam("n4x", 8, both=False, N=4, kinds=BS, reqsets=1, reqs=1, owners=1, maxxor=2, mingroup=2, maxgroup=2)
         fam("n4g", 8, both=False, N=4, kinds=BS, reqsets=0, reqs=0, owners=1, maxxor=2, mingroup=2, maxgroup=4)
         # 5 fields: one seed-chosen kind vector of the 32 (the only family not enumerated completely)
         fam("n5", 32, pick=1, both=False, N=5, kinds=BS, reqsets=1, reqs=2, owners=1, maxxor=1, mingroup=2, maxgroup=3)
     else:
-        # the same families, the larger ones on seed-chosen shards of the kind vectors
+        # wider configurations than the thorough ones, each on one seed-chosen shard of the kind vectors
         fam("n2", 2, pick=1, both=False, N=2, kinds=BSI + ["m"], maxmand=1, reqsets=2, reqs=2, owners=2, maxxor=2, mingroup=1, maxgroup=2)
         fam("n3", 27, pick=1, both=False, N=3, kinds=BSI, reqsets=2, reqs=2, owners=1, maxxor=2, mingroup=2, maxgroup=3)
         fam("n4rx", 16, pick=1, both=False, N=4, kinds=BS, reqsets=1, reqs=2, owners=1, maxxor=1, mingroup=2, maxgroup=4)
